@@ -15,7 +15,7 @@ func specsBase() []*Spec {
 	return []*Spec{
 		{
 			ID:     "C01",
-			Units:  []Unit{{Pkg: "", Job: "C01", Quick: def, Thorough: def}},
+			Units:  []Unit{{Pkg: "", Job: "C01", Quick: []string{"default", "386"}, Thorough: []string{"default", "386"}}},
 			Rule:   "E1 deviation-bounded product enumeration over 12 dimensions (variant, key scalar, key torsion T_0..7, key encoding, nonce scalar, R torsion, R encoding, message, 13 S-perturbations, 7 signature lengths, key replacement and R replacement by 14 torsion encodings / 38 y>=p strings / undecodable strings); triples satisfy the group equation by construction (S = r + h a with known discrete logs). Quick: all vectors with <= 3 non-default coordinates, thorough <= 5; plus the full 8x8 torsion grid per variant and every single-bit flip of key, signature and message of accepted triples. Oracle: ref.Verify on the same bytes. distinct = distinct vector; non-trivial = model verdict accept, or reject for a reason other than length.",
 			Assume: append(trusted, "default-mode acceptance with S >= 2^252 is unreachable without a hash pre-image: decided by C04"),
 		},
@@ -27,7 +27,7 @@ func specsBase() []*Spec {
 		},
 		{
 			ID:     "C02",
-			Units:  []Unit{{Pkg: "", Job: "C02", Quick: def, Thorough: def}},
+			Units:  []Unit{{Pkg: "", Job: "C02", Quick: []string{"default", "386", "force32bit"}, Thorough: []string{"default", "386", "force32bit", "noasm", "appengine"}}},
 			Rule:   "E1 enumeration: seeds LE32(0..n-1) + 0xff..ff (quick n=256, thorough n=4096 = the complete 12-bit seed subspace) x 20 message lengths at SHA-512 block/padding boundaries (pure); 4 (thorough 8) seeds x lengths x contexts (ctx lengths {1,2,31,32,94,95,96,254,255}, ph {0,1,254,255}; thorough every length 1..255 / 0..255) x option styles (*Options, crypto.Hash(0), crypto.SHA512, Sign helper) x entropy argument {nil, recording, panicking}. Oracle: ref.Sign/ref.Public == crypto/ed25519 of the toolchain == implementation, byte for byte; three calls identical; reader never called; inputs unmodified. non-trivial: all (every case compares 64-byte signatures).",
 			Assume: trusted,
 		},
@@ -39,25 +39,25 @@ func specsBase() []*Spec {
 		},
 		{
 			ID:     "C07",
-			Units:  []Unit{{Pkg: "", Job: "C07", Quick: def, Thorough: def}},
+			Units:  []Unit{{Pkg: "", Job: "C07", Quick: []string{"default", "386"}, Thorough: []string{"default", "386", "force32bit"}}},
 			Rule:   "E1 enumeration: all 144 ordered (sign-under, verify-under) pairs of 12 variant/context pairs (pure; ctx a, b, a\\x00, aa, 254xa, 255xa, 255xa with last bit flipped; ph '', a, b, 255xa) x 2 keys x 2 64-byte messages x {single, batch of 4, batch of 65}: accept iff the pairs are equal. Contract: every context length 0..300 x {Hash 0, SHA-512} x {Sign, VerifyWithOptions, VerifyBatch}; every digest length 0..130 under SHA-512; every crypto.Hash value 0..20. Exhaustive over the stated ranges.",
 			Assume: trusted,
 		},
 		{
 			ID:     "C13",
-			Units:  []Unit{{Pkg: "", Job: "C13", Quick: def, Thorough: def}, {Pkg: "extra/x25519", Job: "C13x", Quick: def, Thorough: def}},
+			Units:  []Unit{{Pkg: "", Job: "C13", Quick: def, Thorough: []string{"default", "386"}}, {Pkg: "extra/x25519", Job: "C13x", Quick: def, Thorough: def}},
 			Rule:   "E1 shape enumeration under recover: Verify/VerifyWithOptions over key length {nil,0,1,31,32,33,63,64,65} x signature length {nil,0..66,128} x message {nil,0,1,64,65}; VerifyWithOptions over hash selector 0..20 x digest length x context length {0,1,255,256} x key length; Sign/PrivateKey.Sign/NewKeyFromSeed over key length x message length x 5 option kinds; VerifyBatch count triples [0,5]^3; 14 malformed-entry kinds x every position of n in {1..5,64,65} x 3 variants (+ a second malformed entry); 6 aliasing shapes; every slice handed over inside a canary-filled backing array. E2: entropy reader answers per chunk {full, 1-byte reads, EOF, error at byte 0/1/15/16/63} with <= 2 deviations over up to 3 chunks, sizes {3,4,64,70,130,192}. X25519: all (|scalar|,|point|) in [0,40]^2 and nil. Oracle: contract table transcribed from the statement; per-entry batch results from the model.",
 			Assume: trusted,
 		},
 		{
 			ID:     "C14",
-			Units:  []Unit{{Pkg: "", Job: "C14", Quick: def, Thorough: def}},
+			Units:  []Unit{{Pkg: "", Job: "C14", Quick: []string{"default", "386"}, Thorough: []string{"default", "386", "force32bit"}}},
 			Rule:   "E2 environment answers: GenerateKey over 7 delivery patterns x failure point (none, after k bytes for k=0..33) x failure kind (EOF, custom error, custom error together with data); E1: Equal on 4 keys x every single-bit flip of the 64 private and 32 public bytes, equal copies, 9+7 foreign-typed values, prefixes; accessors on 64 seeds (fresh copies, no aliasing, round trip). Oracle: NewKeyFromSeed(first 32 bytes), crypto/ed25519 of the toolchain, ref.Public.",
 			Assume: trusted,
 		},
 		{
 			ID:     "C09",
-			Units: []Unit{{Pkg: "", Job: "C09", Quick: []string{"default", "force32bit"}, Thorough: []string{"default", "force32bit"}},
+			Units: []Unit{{Pkg: "", Job: "C09", Quick: []string{"default", "force32bit"}, Thorough: []string{"default", "force32bit", "386"}},
 				{Pkg: "internal/ge25519", Job: "C09g", Quick: []string{"default", "force32bit"}, Thorough: layoutCfg}},
 			Rule:   "E1 enumeration: small-order predicate on the complete set of 14 torsion encodings, all 38 y>=p strings and undecodable strings; [k]B+T_i for 13 (quick 5) scalars k != 0 mod L x all 8 torsion points as key and as R, end to end in default mode (single, batch positions 0/3 of 4, 63/64 of 65, 64 of 130); each torsion encoding as key / as R in an equation-satisfying triple (default rejects, ZIP-215 accepts); exhaustive scan of y in [0,2^14) (thorough 2^18) x sign bit against the model. Group level (job C09g): IsNeutralVartime, CofactorMultiply and CofactorEqual on 3 representations (normalised by Z in 7 values; limbs left unreduced by one Add; by one Sub) of the 8 torsion points, 40 mixed-order points and the points with tiny x. non-trivial = torsion or undecodable string, or an end-to-end triple.",
 			Assume: trusted,
@@ -70,7 +70,7 @@ func specsBase() []*Spec {
 		},
 		{
 			ID:     "C06",
-			Units:  []Unit{{Pkg: "", Job: "C06", Quick: def, Thorough: []string{"default", "force32bit"}}},
+			Units:  []Unit{{Pkg: "", Job: "C06", Quick: def, Thorough: []string{"default", "force32bit", "386"}}},
 			Rule:   "E1 (deviation = number of bad entries): batch length n in {0..9,62..69,126..131,192,193,200} x 6 option sets (3 variants x default/ZIP-215); level 0: all-good x 5 entropy streams (2 DRBG, zero, 0xff, counter); level 1: 15 bad kinds (wrong message, R/S/key bit flip, S+L, valid S in [2^252,L), small-order key/R, undecodable key/R, key 31/nil, signature 63/nil, bad pre-hash or nil message) at every position (n<=9) or at interesting positions {0..3,61..67,125..131,n-4..n-1}; level 2: position pairs x kind pairs (n<=8 all pairs; larger n interesting pairs); thorough adds level 3 for n<=8; unsupported hash selector. E2 (chunk sequences): all sequences of <= 3 full chunks over 7 chunk kinds (fast path, S>=L without fallback, fallback by bad signature / malformed key at last slot / small-order R at slot 0 / bad pre-hash, early break by short signature) x remainder 0..3 x remainder kind; last chunk compared with the same chunk as first chunk of a fresh call. Oracle: per entry well-formedness AND ref.Verify == implementation's single verification == batch entry; summary == AND; len(valid)==n; err==nil. Invalid entries only under DRBG entropy.",
 			Assume: append(trusted, "when an entry is invalid the statement allows failure with probability < 2^-120 over the entropy stream: DRBG streams (seeded by VERIF_SEED) are used as fixed alphabet members"),
 		},
@@ -143,7 +143,7 @@ func specsBase() []*Spec {
 		{
 			ID: "C04",
 			Units: []Unit{
-				{Pkg: "", Job: "C04", Quick: []string{"default", "force32bit"}, Thorough: []string{"default", "force32bit"}},
+				{Pkg: "", Job: "C04", Quick: []string{"default", "force32bit", "386"}, Thorough: []string{"default", "force32bit", "386", "noasm", "appengine"}},
 			},
 			Rule:   "E1 product enumeration: (a) scMinimal on the word-class alphabet 7^4 x 257 top bytes vs big.Int comparison with L; (b) small-order key x S boundary alphabet x R=[S]B+T_j x variant x 4 verifier modes, constructed so the group equation holds; (c) honest signatures and S+kL for every k; (d) single-bit and boundary perturbations of S of accepted triples. distinct = distinct (sub-space, input bytes); non-trivial = S >= 2^252 or expected-accept.",
 			Assume: []string{"SHA-512 of the Go toolchain", "reference model ref.Verify (self-tested against RFC 8032 vectors and crypto/ed25519)"},
